@@ -46,7 +46,7 @@ var StartFENs = []string{
 	"r3k2r/p6p/8/8/8/8/P6P/R3K2R w KQkq - 4 20",
 	// promotions galore
 	"n1n5/PPPk4/8/8/8/8/4Kppp/5N1N b - - 0 1",
-	"4k3/PPPPPPPP/8/8/8/8/pppppppp/4K3 w - - 0 1",
+	"4k3/P1P3PP/8/8/8/8/pp4pp/4K3 w - - 0 1",
 	// en passant with pins along the rank / diagonal
 	"8/8/8/KPp4r/8/8/8/7k w - c6 0 2",
 	"8/8/8/8/k1pP3R/8/8/4K3 b - d3 0 1",
@@ -57,7 +57,7 @@ var StartFENs = []string{
 	"8/5k2/8/8/8/8/1Q6/K7 w - - 0 1",
 	"7k/8/8/8/8/8/R7/1R4K1 w - - 10 40",
 	"8/8/8/8/8/2k5/1q6/K7 w - - 0 1",
-	"k7/8/1K6/8/8/8/8/7Q w - - 90 80",
+	"k7/8/1K6/8/8/8/7Q/8 w - - 90 80",
 	"8/8/4k3/8/8/3BB3/8/4K3 w - - 0 1",
 	"8/8/4k3/8/8/3NB3/8/4K3 w - - 0 1",
 	"4k3/8/8/8/8/8/8/4KB1b w - - 0 1",
@@ -75,7 +75,11 @@ var StartFENs = []string{
 func Starts() []ref.Pos {
 	var ret []ref.Pos
 	for _, f := range StartFENs {
-		ret = append(ret, ref.MustFEN(f))
+		p := ref.MustFEN(f)
+		if p.InCheck(!p.White) || p.KingSq(true) < 0 || p.KingSq(false) < 0 {
+			panic("curated start position is not legal: " + f)
+		}
+		ret = append(ret, p)
 	}
 	return ret
 }
@@ -83,16 +87,24 @@ func Starts() []ref.Pos {
 // Bias steers random move choice. Weights are relative; 1 is neutral.
 type Bias struct {
 	Capture, Check, Promo, Castle, EP, Quiet float64
+	// PawnMove scales pushes and double steps (0 = neutral).
+	PawnMove float64
 	// Shuffle, when >0, is the probability of preferring a move that undoes the mover's previous
 	// move (manufactures repetitions and long no-progress runs).
 	Shuffle float64
 }
 
 var (
-	Neutral  = Bias{1, 1, 1, 1, 1, 1, 0}
-	Tactical = Bias{4, 3, 6, 8, 20, 1, 0}
-	Shuffly  = Bias{0.15, 1, 0.3, 1, 1, 2, 0.7}
-	Quietish = Bias{0.05, 1, 0.2, 2, 1, 3, 0.35}
+	Neutral  = Bias{Capture: 1, Check: 1, Promo: 1, Castle: 1, EP: 1, Quiet: 1}
+	Tactical = Bias{Capture: 4, Check: 3, Promo: 6, Castle: 8, EP: 20, Quiet: 1}
+	Shuffly  = Bias{Capture: 0.15, Check: 1, Promo: 0.3, Castle: 1, EP: 1, Quiet: 2, Shuffle: 0.7}
+	Quietish = Bias{Capture: 0.05, Check: 1, Promo: 0.2, Castle: 2, EP: 1, Quiet: 3, Shuffle: 0.35}
+	// NoProgress avoids captures and pawn moves and does not shuffle: long reversible runs without repetition.
+	NoProgress = Bias{Capture: 0.001, Check: 1, Promo: 0.001, Castle: 1, EP: 0.001, Quiet: 3, PawnMove: 0.001}
+	// CastleShuffle castles as soon as possible and then shuffles (repetition whose first occurrence follows castling).
+	CastleShuffle = Bias{Capture: 0.05, Check: 1, Promo: 0.2, Castle: 200, EP: 1, Quiet: 2, PawnMove: 0.2, Shuffle: 0.85}
+	// Trader loves captures: runs material down to the insufficient-material classes.
+	Trader = Bias{Capture: 30, Check: 1, Promo: 3, Castle: 1, EP: 30, Quiet: 1}
 )
 
 // Biases lists the presets for round-robin use.
@@ -120,6 +132,10 @@ func Pick(r *rand.Rand, p *ref.Pos, moves []ref.Move, b Bias, prevOwn *ref.Move)
 			x = b.Castle
 		case ref.KPromotion, ref.KCapturePromotion:
 			x = b.Promo
+		case ref.KPush, ref.KJump:
+			if b.PawnMove > 0 {
+				x *= b.PawnMove
+			}
 		}
 		if b.Check != 1 {
 			n := p.Apply(m)
